@@ -254,6 +254,20 @@ theorem depAfter_ok {isCreate : Bool} {old new : Bytes} {s s' : State} (h : depA
       · cases h
     · next hn => cases h; exact ⟨rfl, fun h => absurd h hn⟩
 
+/-- `fkConstraint.ProcessAfterUpdate` of the self reference: a new non-empty target exists -/
+theorem bossAfter_ok {isCreate : Bool} {old new : Bytes} {s : State} (h : bossAfter isCreate old new s = .ok ()) :
+    new ≠ [] → (isCreate = false ∧ old = new) ∨ s.aEx new = true := by
+  unfold bossAfter at h
+  split at h
+  · next hc =>
+    simp only [Bool.and_eq_true, Bool.not_eq_true', beq_iff_eq] at hc
+    exact fun _ => Or.inl hc
+  · split at h
+    · split at h
+      · next hb => exact fun _ => Or.inr hb
+      · cases h
+    · next hn => exact fun h => absurd h hn
+
 theorem afterUpdateA_ok {isCreate : Bool} {cap : Captured} {s s' : State} {id : Id}
     (h : afterUpdateA isCreate cap s id = .ok s') :
     ∃ un ua sr,
@@ -262,8 +276,14 @@ theorem afterUpdateA_ok {isCreate : Bool} {cap : Captured} {s s' : State} {id : 
       setAfter cap.roles (evRoles (s.a.lookup id)) id s.sRoles = .ok sr ∧
       fkAfter isCreate cap.owner (evOwner (s.a.lookup id)) id { s with uName := un, uAlias := ua, sRoles := sr } = .ok s' ∧
       (evDep (s.a.lookup id) ≠ [] →
-        (isCreate = false ∧ cap.dep = evDep (s.a.lookup id)) ∨ s'.bEx (evDep (s.a.lookup id)) = true) := by
+        (isCreate = false ∧ cap.dep = evDep (s.a.lookup id)) ∨ s'.bEx (evDep (s.a.lookup id)) = true) ∧
+      (evBoss (s.a.lookup id) ≠ [] →
+        (isCreate = false ∧ cap.boss = evBoss (s.a.lookup id)) ∨ s.aEx (evBoss (s.a.lookup id)) = true) := by
   simp only [afterUpdateA, bind, Except.bind] at h
+  cases hbo : bossAfter isCreate cap.boss (evBoss (s.a.lookup id)) s with
+  | error x => simp [hbo] at h
+  | ok u =>
+  simp only [hbo] at h
   cases hun : uniqueAfter isCreate false cap.name (evName (s.a.lookup id)) id s.uName with
   | error x => simp [hun] at h
   | ok un =>
@@ -281,7 +301,7 @@ theorem afterUpdateA_ok {isCreate : Bool} {cap : Captured} {s s' : State} {id : 
         | ok s1 =>
           simp only [hfk] at h
           obtain ⟨rfl, hd⟩ := depAfter_ok h
-          exact ⟨un, ua, sr, rfl, rfl, rfl, hfk, hd⟩
+          exact ⟨un, ua, sr, rfl, rfl, rfl, hfk, hd, bossAfter_ok hbo⟩
 
 theorem beforeDeleteA_ok {s s' : State} {id : Id} (h : beforeDeleteA s id = .ok s') :
     ∃ sr, setBeforeDelete (evRoles (s.a.lookup id)) id s.sRoles = .ok sr ∧
@@ -460,12 +480,18 @@ structure InvCore (s : State) : Prop where
   hasA : ∀ j e, s.a.lookup j = some e → s.hasA = true
   hasB : ∀ j e, s.b.lookup j = some e → s.hasB = true
 
+/-- the self reference `boss` names an existing entity — except for the entities whose cascading
+    delete is in progress (`busy`): the boss of such an entity may already be gone (cycles) -/
+def BossOK (busy : List Id) (s : State) : Prop :=
+  ∀ j e, s.a.lookup j = some e → e.boss.getD [] ≠ [] → j ∉ busy → s.aEx (e.boss.getD []) = true
+
 structure Inv (s : State) : Prop extends InvCore s where
   uLabel : UI (fun (e : EntB) => e.label.getD []) s.b s.uLabel
+  boss : BossOK [] s
 
 theorem inv_empty : Inv State.empty := by
-  refine ⟨⟨?_, ?_, ?_, ?_, ?_, ?_, ?_, ?_, ?_, LinkInv.empty _ _, LinkInv.empty _ _, RcInv.empty _ _, ?_, ?_, ?_, ?_, ?_, ?_, ?_⟩, ?_⟩ <;>
-    simp [State.empty, UI, SI, NEK, BR, ThgDom]
+  refine ⟨⟨?_, ?_, ?_, ?_, ?_, ?_, ?_, ?_, ?_, LinkInv.empty _ _, LinkInv.empty _ _, RcInv.empty _ _, ?_, ?_, ?_, ?_, ?_, ?_, ?_⟩, ?_, ?_⟩ <;>
+    simp [State.empty, UI, SI, NEK, BR, ThgDom, BossOK]
 
 theorem aEx_congr {s s' : State} (h : s'.a = s.a) : s'.aEx = s.aEx := by funext j; simp [State.aEx, h]
 theorem bEx_congr {s s' : State} (h : s'.b = s.b) : s'.bEx = s.bEx := by funext j; simp [State.bEx, h]
@@ -537,6 +563,21 @@ theorem cEx_insert_mono {s : State} {id : Id} {e : EntA} {s' : State} (ha : s'.a
 
 
 
+theorem bossOK_insert {s s' : State} {id : Id} {e : EntA} (hb : BossOK [] s) (ha : s'.a = s.a.insert id e)
+    (he : e.boss.getD [] ≠ [] → s'.aEx (e.boss.getD []) = true) : BossOK [] s' := by
+  intro j e' hj hne _
+  rw [ha] at hj
+  simp only [Map.lookup_insert] at hj
+  split at hj
+  · cases hj; exact he hne
+  · exact aEx_insert_mono ha _ (hb j e' hj hne (by simp))
+
+theorem bossOK_congr {s s' : State} {busy : List Id} (hb : BossOK busy s) (ha : s'.a = s.a) : BossOK busy s' := by
+  intro j e hj hne hnb
+  rw [ha] at hj
+  rw [aEx_congr ha]
+  exact hb j e hj hne hnb
+
 theorem inv_createA {s s' : State} {id : Id} {v : ValsA} (hi : Inv s) (h : createA s id v = .ok s') : Inv s' := by
   unfold createA at h
   split at h
@@ -551,22 +592,22 @@ theorem inv_createA {s s' : State} {id : Id} {v : ValsA} (hi : Inv s) (h : creat
       · cases h
       · next s2 hsl =>
         obtain ⟨g', hg', rfl⟩ := setGroups_ok hsl
-        have hg1 : LinkInv s.g ({ s with hasA := true, a := s.a.insert id ⟨v.name, v.alias, setOf v.roles, v.owner, v.dep, none⟩ } : State).aEx s.bEx :=
+        have hg1 : LinkInv s.g ({ s with hasA := true, a := s.a.insert id ⟨v.name, v.alias, setOf v.roles, v.owner, v.dep, v.boss, none⟩ } : State).aEx s.bEx :=
           hi.g.mono (aEx_insert_mono rfl) (fun _ h => h)
         have hg2 := LinkPair.setLinks_pres hg1 (aEx_insert_self rfl) hg'
-        obtain ⟨un, ua, sr, hun, hua, hsr, hfk, hdep⟩ := afterUpdateA_ok h
-        simp only [Map.lookup_insert, if_true, evName, evAlias, evRoles, evOwner, evDep, Captured.none] at hun hua hsr hfk hdep
-        obtain ⟨k1, k2, k3, k4⟩ := fkAfter_create_ok (e := ⟨v.name, v.alias, setOf v.roles, v.owner, v.dep, none⟩)
+        obtain ⟨un, ua, sr, hun, hua, hsr, hfk, hdep, hboss⟩ := afterUpdateA_ok h
+        simp only [Map.lookup_insert, if_true, evName, evAlias, evRoles, evOwner, evDep, evBoss, Captured.none] at hun hua hsr hfk hdep hboss
+        obtain ⟨k1, k2, k3, k4⟩ := fkAfter_create_ok (e := ⟨v.name, v.alias, setOf v.roles, v.owner, v.dep, v.boss, none⟩)
           (ents := s.a) (by exact hi.br) (by exact hi.thgDom) hfresh hfk
         obtain ⟨g1, g2, g3, g4, g5, g6, g7, g8, g9, g10, g11, g12⟩ := k2.fields
         simp only at g1 g2 g3 g4 g5 g6 g7 g8 g9 g10 g11 g12
-        have hsr' := C03.setAfter_ok (r := (·.roles)) (e := (⟨v.name, v.alias, setOf v.roles, v.owner, v.dep, none⟩ : EntA))
+        have hsr' := C03.setAfter_ok (r := (·.roles)) (e := (⟨v.name, v.alias, setOf v.roles, v.owner, v.dep, v.boss, none⟩ : EntA))
           hi.sRoles hi.nek (oldRoles := []) (id := id) (by intro x; simp [hfresh]) hsr
-        have hae : s'.aEx = ({ s with hasA := true, a := s.a.insert id ⟨v.name, v.alias, setOf v.roles, v.owner, v.dep, none⟩ } : State).aEx :=
+        have hae : s'.aEx = ({ s with hasA := true, a := s.a.insert id ⟨v.name, v.alias, setOf v.roles, v.owner, v.dep, v.boss, none⟩ } : State).aEx :=
           aEx_congr g3
         have hbe : s'.bEx = s.bEx := bEx_congr g4
-        refine ⟨core_assemble (e := ⟨v.name, v.alias, setOf v.roles, v.owner, v.dep, none⟩) hi.toInvCore g3 g4 g2 g1
-          ?_ ?_ ?_ ?_ ?_ ?_ k3 ?_ ?_ ?_ ?_ ?_ ?_ ?_ ?_ hid, ?_⟩
+        refine ⟨core_assemble (e := ⟨v.name, v.alias, setOf v.roles, v.owner, v.dep, v.boss, none⟩) hi.toInvCore g3 g4 g2 g1
+          ?_ ?_ ?_ ?_ ?_ ?_ k3 ?_ ?_ ?_ ?_ ?_ ?_ ?_ ?_ hid, ?_, ?_⟩
         · rw [g3, g8]; exact C03.uniqueAfter_create_ok hi.uName hfresh hun
         · rw [g3, g9]; exact C03.uniqueAfter_create_ok hi.uAlias hfresh hua
         · rw [g3, g10]; exact UI_insert_fresh_empty hi.uCode hfresh rfl
@@ -587,6 +628,10 @@ theorem inv_createA {s s' : State} {id : Id} {v : ValsA} (hi : Inv s) (h : creat
         · exact C03.setAfter_ok_nonempty hsr (by simp)
         · intro c hc; cases hc
         · rw [g4, g11]; exact hi.uLabel
+        · refine bossOK_insert hi.boss g3 (fun hne => ?_)
+          rcases hboss hne with ⟨hc, _⟩ | hb
+          · cases hc
+          · rw [hae]; exact hb
 
 
 
@@ -615,8 +660,8 @@ theorem inv_updateA {s s' : State} {id : Id} {v : ValsA} {chk : Option ChkA} (hi
         · simp only [hp, Bool.false_eq_true, if_false, pure, Except.pure] at h
           exact ⟨s.g, hg1, h⟩
       obtain ⟨g', hg2, h⟩ := hlink
-      obtain ⟨un, ua, sr, hun, hua, hsr, hfk, hdep⟩ := afterUpdateA_ok h
-      simp only [Map.lookup_insert, if_true, captureA, hold, evName, evAlias, evRoles, evOwner, evDep] at hun hua hsr hfk hdep
+      obtain ⟨un, ua, sr, hun, hua, hsr, hfk, hdep, hboss⟩ := afterUpdateA_ok h
+      simp only [Map.lookup_insert, if_true, captureA, hold, evName, evAlias, evRoles, evOwner, evDep, evBoss] at hun hua hsr hfk hdep hboss
       obtain ⟨k1, k2, k3, k4⟩ := fkAfter_update_ok (e := persistFields old v chk) (ents := s.a) (by exact hi.br)
         (by exact hi.thgDom) hold (by exact hi.ownerExists id old hold) hfk
       obtain ⟨g1, g2, g3, g4, g5, g6, g7, g8, g9, g10, g11, g12⟩ := k2.fields
@@ -626,7 +671,7 @@ theorem inv_updateA {s s' : State} {id : Id} {v : ValsA} {chk : Option ChkA} (hi
       have hae : s'.aEx = ({ s with a := s.a.insert id (persistFields old v chk) } : State).aEx := aEx_congr g3
       have hbe : s'.bEx = s.bEx := bEx_congr g4
       refine ⟨core_assemble (e := persistFields old v chk) hi.toInvCore g3 g4 g2 (by rw [g1]; exact hi.hasA id old hold)
-        ?_ ?_ ?_ ?_ ?_ ?_ k3 ?_ ?_ ?_ ?_ ?_ ?_ ?_ ?_ hid, ?_⟩
+        ?_ ?_ ?_ ?_ ?_ ?_ k3 ?_ ?_ ?_ ?_ ?_ ?_ ?_ ?_ hid, ?_, ?_⟩
       · rw [g3, g8]; exact C03.uniqueAfter_update_ok (f := fun (e : EntA) => e.name) hi.uName hold hun
       · rw [g3, g9]; exact C03.uniqueAfter_update_ok (f := fun (e : EntA) => e.alias.getD []) hi.uAlias hold hua
       · rw [g3, g10]; exact UI_insert_same hi.uCode hold rfl
@@ -648,6 +693,11 @@ theorem inv_updateA {s s' : State} {id : Id} {v : ValsA} {chk : Option ChkA} (hi
       · exact C03.setAfter_ok_nonempty hsr (hi.rolesNonEmpty id old hold)
       · intro c hc; exact hi.codeNonEmpty id old c hold hc
       · rw [g4, g11]; exact hi.uLabel
+      · refine bossOK_insert hi.boss g3 (fun hne => ?_)
+        rcases hboss hne with ⟨_, hc⟩ | hb
+        · have := hi.boss id old hold (by rw [hc]; exact hne) (by simp)
+          rw [hc] at this; exact aEx_insert_mono g3 _ this
+        · rw [hae]; exact hb
 
 
 
@@ -671,10 +721,10 @@ theorem inv_createA1 {s s' : State} {id : Id} {v : ValsA} {code : Bytes} {pals :
         · cases h
         · next s2' hsp =>
           obtain ⟨p', hp', rfl⟩ := setPals_ok hsp
-          have hg1 : LinkInv s.g ({ s with hasA := true, a := s.a.insert id ⟨v.name, v.alias, setOf v.roles, v.owner, v.dep, some code⟩ } : State).aEx s.bEx :=
+          have hg1 : LinkInv s.g ({ s with hasA := true, a := s.a.insert id ⟨v.name, v.alias, setOf v.roles, v.owner, v.dep, v.boss, some code⟩ } : State).aEx s.bEx :=
             hi.g.mono (aEx_insert_mono rfl) (fun _ h => h)
           have hg2 := LinkPair.setLinks_pres hg1 (aEx_insert_self rfl) hg'
-          have hp1 : LinkInv s.p ({ s with hasA := true, a := s.a.insert id ⟨v.name, v.alias, setOf v.roles, v.owner, v.dep, some code⟩ } : State).cEx s.bEx :=
+          have hp1 : LinkInv s.p ({ s with hasA := true, a := s.a.insert id ⟨v.name, v.alias, setOf v.roles, v.owner, v.dep, v.boss, some code⟩ } : State).cEx s.bEx :=
             hi.p.mono (cEx_insert_mono rfl (fun _ => rfl)) (fun _ h => h)
           have hp2 := LinkPair.setLinks_pres hp1 (by simp [State.cEx]) hp'
           split at h
@@ -685,30 +735,30 @@ theorem inv_createA1 {s s' : State} {id : Id} {v : ValsA} {code : Bytes} {pals :
             · next uc huc =>
               simp only [pure, Except.pure] at h
               cases h
-              obtain ⟨un, ua, sr, hun, hua, hsr, hfk, hdep⟩ := afterUpdateA_ok hs3
-              simp only [Map.lookup_insert, if_true, evName, evAlias, evRoles, evOwner, evDep] at hun hua hsr hfk hdep
+              obtain ⟨un, ua, sr, hun, hua, hsr, hfk, hdep, hboss⟩ := afterUpdateA_ok hs3
+              simp only [Map.lookup_insert, if_true, evName, evAlias, evRoles, evOwner, evDep, evBoss] at hun hua hsr hfk hdep hboss
               cases hold : s.a.lookup id with
               | none =>
-                simp only [hold, Option.isSome_none, Bool.false_eq_true, if_false, Captured.none] at hun hua hsr hfk hdep
-                obtain ⟨k1, k2, k3, k4⟩ := fkAfter_create_ok (e := ⟨v.name, v.alias, setOf v.roles, v.owner, v.dep, some code⟩)
+                simp only [hold, Option.isSome_none, Bool.false_eq_true, if_false, Captured.none] at hun hua hsr hfk hdep hboss
+                obtain ⟨k1, k2, k3, k4⟩ := fkAfter_create_ok (e := ⟨v.name, v.alias, setOf v.roles, v.owner, v.dep, v.boss, some code⟩)
                   (ents := s.a) (by exact hi.br) (by exact hi.thgDom) hold hfk
                 obtain ⟨g1, g2, g3, g4, g5, g6, g7, g8, g9, g10, g11, g12⟩ := k2.fields
                 simp only at g1 g2 g3 g4 g5 g6 g7 g8 g9 g10 g11 g12
                 rw [g10] at huc
-                have hsr' := C03.setAfter_ok (r := (·.roles)) (e := (⟨v.name, v.alias, setOf v.roles, v.owner, v.dep, some code⟩ : EntA))
+                have hsr' := C03.setAfter_ok (r := (·.roles)) (e := (⟨v.name, v.alias, setOf v.roles, v.owner, v.dep, v.boss, some code⟩ : EntA))
                   hi.sRoles hi.nek (oldRoles := []) (id := id) (by intro x; simp [hold]) hsr
-                have hae : s3.aEx = ({ s with hasA := true, a := s.a.insert id ⟨v.name, v.alias, setOf v.roles, v.owner, v.dep, some code⟩ } : State).aEx :=
+                have hae : s3.aEx = ({ s with hasA := true, a := s.a.insert id ⟨v.name, v.alias, setOf v.roles, v.owner, v.dep, v.boss, some code⟩ } : State).aEx :=
                   aEx_congr g3
-                have hce : s3.cEx = ({ s with hasA := true, a := s.a.insert id ⟨v.name, v.alias, setOf v.roles, v.owner, v.dep, some code⟩ } : State).cEx :=
+                have hce : s3.cEx = ({ s with hasA := true, a := s.a.insert id ⟨v.name, v.alias, setOf v.roles, v.owner, v.dep, v.boss, some code⟩ } : State).cEx :=
                   cEx_congr g3
                 have hbe : s3.bEx = s.bEx := bEx_congr g4
-                refine ⟨core_assemble (s' := { s3 with uCode := uc }) (e := ⟨v.name, v.alias, setOf v.roles, v.owner, v.dep, some code⟩)
-                  hi.toInvCore g3 g4 g2 g1 ?_ ?_ ?_ ?_ ?_ ?_ k3 ?_ ?_ ?_ ?_ ?_ ?_ ?_ ?_ hid, ?_⟩
+                refine ⟨core_assemble (s' := { s3 with uCode := uc }) (e := ⟨v.name, v.alias, setOf v.roles, v.owner, v.dep, v.boss, some code⟩)
+                  hi.toInvCore g3 g4 g2 g1 ?_ ?_ ?_ ?_ ?_ ?_ k3 ?_ ?_ ?_ ?_ ?_ ?_ ?_ ?_ hid, ?_, ?_⟩
                 · show UI _ s3.a s3.uName; rw [g3, g8]; exact C03.uniqueAfter_create_ok hi.uName hold hun
                 · show UI _ s3.a s3.uAlias; rw [g3, g9]; exact C03.uniqueAfter_create_ok hi.uAlias hold hua
                 · show UI _ s3.a uc; rw [g3]
                   exact C03.uniqueAfter_create_ok (f := fun (e : EntA) => e.code.getD [])
-                    (e := (⟨v.name, v.alias, setOf v.roles, v.owner, v.dep, some code⟩ : EntA)) hi.uCode hold huc
+                    (e := (⟨v.name, v.alias, setOf v.roles, v.owner, v.dep, v.boss, some code⟩ : EntA)) hi.uCode hold huc
                 · show SI _ s3.a s3.sRoles; rw [g3, g12]; exact hsr'.1
                 · show NEK s3.sRoles; rw [g12]; exact hsr'.2
                 · show BR s3.a s3.thg; rw [g3]; exact k1
@@ -725,29 +775,33 @@ theorem inv_createA1 {s s' : State} {id : Id} {v : ValsA} {code : Bytes} {pals :
                 · exact C03.setAfter_ok_nonempty hsr (by simp)
                 · intro c hc; cases hc; exact C03.uniqueAfter_create_nonempty huc rfl
                 · show UI _ s3.b s3.uLabel; rw [g4, g11]; exact hi.uLabel
+                · refine bossOK_insert (s' := { s3 with uCode := uc }) hi.boss g3 (fun hne => ?_)
+                  rcases hboss hne with ⟨hc, _⟩ | hb
+                  · cases hc
+                  · show s3.aEx _ = true; rw [hae]; exact hb
               | some old =>
                 have hcode : old.code = none := by
                   cases hc : old.code with
                   | none => rfl
                   | some c => simp [State.cEx, hold, hc] at hnc
-                simp only [hold, Option.isSome_some, if_true, captureA, evName, evAlias, evRoles, evOwner, evDep] at hun hua hsr hfk hdep
-                obtain ⟨k1, k2, k3, k4⟩ := fkAfter_true_ok (e := ⟨v.name, v.alias, setOf v.roles, v.owner, v.dep, some code⟩)
+                simp only [hold, Option.isSome_some, if_true, captureA, evName, evAlias, evRoles, evOwner, evDep, evBoss] at hun hua hsr hfk hdep hboss
+                obtain ⟨k1, k2, k3, k4⟩ := fkAfter_true_ok (e := ⟨v.name, v.alias, setOf v.roles, v.owner, v.dep, v.boss, some code⟩)
                   (ents := s.a) (by exact hi.br) (by exact hi.thgDom) hold hfk
                 obtain ⟨g1, g2, g3, g4, g5, g6, g7, g8, g9, g10, g11, g12⟩ := k2.fields
                 simp only at g1 g2 g3 g4 g5 g6 g7 g8 g9 g10 g11 g12
                 rw [g10] at huc
                 have huc' : uniqueAfter true false ((fun (e : EntA) => e.code.getD []) old)
-                    ((fun (e : EntA) => e.code.getD []) ⟨v.name, v.alias, setOf v.roles, v.owner, v.dep, some code⟩) id s.uCode = .ok uc := by
+                    ((fun (e : EntA) => e.code.getD []) ⟨v.name, v.alias, setOf v.roles, v.owner, v.dep, v.boss, some code⟩) id s.uCode = .ok uc := by
                   simpa [hcode] using huc
-                have hsr' := C03.setAfter_ok (r := (·.roles)) (e := (⟨v.name, v.alias, setOf v.roles, v.owner, v.dep, some code⟩ : EntA))
+                have hsr' := C03.setAfter_ok (r := (·.roles)) (e := (⟨v.name, v.alias, setOf v.roles, v.owner, v.dep, v.boss, some code⟩ : EntA))
                   hi.sRoles hi.nek (oldRoles := old.roles) (id := id) (by intro x; simp [hold]) hsr
-                have hae : s3.aEx = ({ s with hasA := true, a := s.a.insert id ⟨v.name, v.alias, setOf v.roles, v.owner, v.dep, some code⟩ } : State).aEx :=
+                have hae : s3.aEx = ({ s with hasA := true, a := s.a.insert id ⟨v.name, v.alias, setOf v.roles, v.owner, v.dep, v.boss, some code⟩ } : State).aEx :=
                   aEx_congr g3
-                have hce : s3.cEx = ({ s with hasA := true, a := s.a.insert id ⟨v.name, v.alias, setOf v.roles, v.owner, v.dep, some code⟩ } : State).cEx :=
+                have hce : s3.cEx = ({ s with hasA := true, a := s.a.insert id ⟨v.name, v.alias, setOf v.roles, v.owner, v.dep, v.boss, some code⟩ } : State).cEx :=
                   cEx_congr g3
                 have hbe : s3.bEx = s.bEx := bEx_congr g4
-                refine ⟨core_assemble (s' := { s3 with uCode := uc }) (e := ⟨v.name, v.alias, setOf v.roles, v.owner, v.dep, some code⟩)
-                  hi.toInvCore g3 g4 g2 g1 ?_ ?_ ?_ ?_ ?_ ?_ k3 ?_ ?_ ?_ ?_ ?_ ?_ ?_ ?_ hid, ?_⟩
+                refine ⟨core_assemble (s' := { s3 with uCode := uc }) (e := ⟨v.name, v.alias, setOf v.roles, v.owner, v.dep, v.boss, some code⟩)
+                  hi.toInvCore g3 g4 g2 g1 ?_ ?_ ?_ ?_ ?_ ?_ k3 ?_ ?_ ?_ ?_ ?_ ?_ ?_ ?_ hid, ?_, ?_⟩
                 · show UI _ s3.a s3.uName; rw [g3, g8]
                   exact C03.uniqueAfter_true_ok (f := fun (e : EntA) => e.name) hi.uName hold hun
                 · show UI _ s3.a s3.uAlias; rw [g3, g9]
@@ -770,6 +824,10 @@ theorem inv_createA1 {s s' : State} {id : Id} {v : ValsA} {code : Bytes} {pals :
                 · exact C03.setAfter_ok_nonempty hsr (hi.rolesNonEmpty id old hold)
                 · intro c hc; cases hc; exact C03.uniqueAfter_create_nonempty huc rfl
                 · show UI _ s3.b s3.uLabel; rw [g4, g11]; exact hi.uLabel
+                · refine bossOK_insert (s' := { s3 with uCode := uc }) hi.boss g3 (fun hne => ?_)
+                  rcases hboss hne with ⟨hc, _⟩ | hb
+                  · cases hc
+                  · show s3.aEx _ = true; rw [hae]; exact hb
 
 
 
@@ -817,7 +875,8 @@ theorem inv_createB {s s' : State} {id : Id} {label : Option Bytes} (hi : Inv s)
       · next ul hul =>
         cases h
         exact ⟨core_of_b_insert (e := ⟨label⟩) hi.toInvCore hid rfl rfl rfl rfl rfl rfl rfl rfl rfl rfl rfl rfl,
-          C03.uniqueAfter_create_ok (f := fun (e : EntB) => e.label.getD []) (e := ⟨label⟩) hi.uLabel hfresh hul⟩
+          C03.uniqueAfter_create_ok (f := fun (e : EntB) => e.label.getD []) (e := ⟨label⟩) hi.uLabel hfresh hul,
+          bossOK_congr hi.boss rfl⟩
 
 theorem inv_updateB {s s' : State} {id : Id} {label : Option Bytes} {chk : Option Bool} (hi : Inv s)
     (h : updateB s id label chk = .ok s') : Inv s' := by
@@ -834,7 +893,8 @@ theorem inv_updateB {s s' : State} {id : Id} {label : Option Bytes} {chk : Optio
       · next ul hul =>
         cases h
         exact ⟨core_of_b_insert hi.toInvCore hid rfl rfl rfl rfl rfl rfl rfl rfl rfl rfl rfl (hi.hasB id old hold),
-          C03.uniqueAfter_update_ok (f := fun (e : EntB) => e.label.getD []) hi.uLabel hold hul⟩
+          C03.uniqueAfter_update_ok (f := fun (e : EntB) => e.label.getD []) hi.uLabel hold hul,
+          bossOK_congr hi.boss rfl⟩
 
 theorem inv_rcOp {s s' : State} {f : RcPair → Except Err RcPair} (hi : Inv s)
     (hf : ∀ r', f s.rc = .ok r' → RcInv r' s.aEx s.bEx) (h : rcOp s f = .ok s') : Inv s' := by
@@ -843,7 +903,7 @@ theorem inv_rcOp {s s' : State} {f : RcPair → Except Err RcPair} (hi : Inv s)
   · cases h
   · next r' hr =>
     cases h
-    exact ⟨{ hi.toInvCore with rc := hf r' hr }, hi.uLabel⟩
+    exact ⟨{ hi.toInvCore with rc := hf r' hr }, hi.uLabel, bossOK_congr hi.boss rfl⟩
 
 
 
@@ -857,7 +917,7 @@ theorem LinkPair.cleanFwd_of_none {p : LinkPair} {bEx : Id → Bool} {id : Id} (
   simp [LinkPair.cleanFwd, h]
 
 /-- what `deleteA` computes, stage by stage -/
-theorem deleteA_stages {s s' : State} {id : Id} (hi : InvCore s) (h : deleteA s id = .ok s') :
+theorem deleteA0_stages {s s' : State} {id : Id} (hi : InvCore s) (h : deleteA0 s id = .ok s') :
     id ≠ [] ∧ ∃ e s2, s.a.lookup id = some e ∧ IdxInv (s.a.erase id) s2 ∧
       s2.hasA = s.hasA ∧ s2.hasB = s.hasB ∧ s2.a = s.a ∧ s2.b = s.b ∧ s2.g = s.g ∧ s2.rc = s.rc ∧
       s2.uLabel = s.uLabel ∧ s2.uCode = uniqueBeforeDelete (e.code.getD []) s.uCode ∧
@@ -866,7 +926,7 @@ theorem deleteA_stages {s s' : State} {id : Id} (hi : InvCore s) (h : deleteA s 
                      g := { fwd := (s2.g.cleanFwd s2.bEx id).fwd.erase id, bwd := (s2.g.cleanFwd s2.bEx id).bwd },
                      p := { fwd := s2.p.fwd.erase id, bwd := s2.p.bwd },
                      rc := { fwd := (s2.rc.cleanFwd s2.bEx id).fwd.erase id, bwd := (s2.rc.cleanFwd s2.bEx id).bwd } } := by
-  unfold deleteA at h
+  unfold deleteA0 at h
   split at h
   · cases h
   · next hid =>
@@ -927,9 +987,9 @@ theorem cEx_erase {s s' : State} {id : Id} (ha : s'.a = s.a.erase id) :
     ∀ j, s.cEx j = true → j ≠ id → s'.cEx j = true := by
   intro j hj hne; simp only [State.cEx, ha, Map.lookup_erase, hne, if_false]; exact hj
 
-theorem core_deleteA {s s' : State} {id : Id} (hi : InvCore s) (h : deleteA s id = .ok s') :
+theorem core_deleteA0 {s s' : State} {id : Id} (hi : InvCore s) (h : deleteA0 s id = .ok s') :
     InvCore s' ∧ s'.a = s.a.erase id ∧ s'.b = s.b ∧ s'.uLabel = s.uLabel ∧ s'.hasB = s.hasB ∧ s'.hasA = s.hasA := by
-  obtain ⟨hid, e, s2, hold, ix, q1, q2, q3, q4, q5, q6, q7, q8, q9, rfl⟩ := deleteA_stages hi h
+  obtain ⟨hid, e, s2, hold, ix, q1, q2, q3, q4, q5, q6, q7, q8, q9, rfl⟩ := deleteA0_stages hi h
   have hbe : s2.bEx = s.bEx := bEx_congr q4
   refine ⟨⟨?_, ?_, ?_, ?_, ?_, ?_, ?_, ?_, ?_, ?_, ?_, ?_, ?_, ?_, ?_, ?_, ?_, ?_, ?_⟩, by simp [q3], q4, q7, q2, q1⟩
   · show UI _ (s2.a.erase id) s2.uName; rw [q3]; exact ix.uName
@@ -980,34 +1040,258 @@ theorem core_deleteA {s s' : State} {id : Id} (hi : InvCore s) (h : deleteA s id
 
 
 
+/-! ### the cascading delete of `boss` referrers -/
+
+theorem mem_markBusy (busy : List Id) (id k : Id) : k ∈ markBusy busy id ↔ k = id ∨ k ∈ busy := by
+  unfold markBusy
+  split
+  · next h =>
+    have : id ∈ busy := by simpa using h
+    constructor
+    · exact Or.inr
+    · rintro (rfl | h')
+      · exact this
+      · exact h'
+  · simp
+
+theorem mem_minions (s : State) (id j : Id) :
+    j ∈ minions s id ↔ ∃ e, s.a.lookup j = some e ∧ e.boss.getD [] = id := by
+  simp only [minions, C03.mem_setOf, List.mem_map, List.mem_filter, decide_eq_true_eq, Prod.exists, Map.mem_entries_iff]
+  constructor
+  · rintro ⟨a, e, ⟨hl, hd⟩, rfl⟩; exact ⟨e, hl, hd⟩
+  · rintro ⟨e, hl, hd⟩; exact ⟨j, e, ⟨hl, hd⟩, rfl⟩
+
+theorem minions_congr {s t : State} (h : t.a = s.a) (id : Id) : minions t id = minions s id := by
+  simp [minions, h]
+
+/-- what a (nested) `A.DeleteById` guarantees; `busy` = the entities whose cascading delete is in progress -/
+structure DelPost (busy : List Id) (s s' : State) (id : Id) : Prop where
+  core : InvCore s'
+  boss : BossOK busy s'
+  b : s'.b = s.b
+  uLabel : s'.uLabel = s.uLabel
+  hasB : s'.hasB = s.hasB
+  /-- survivors are unchanged -/
+  sub : ∀ k e, s'.a.lookup k = some e → s.a.lookup k = some e
+  gone : s'.a.lookup id = none
+  /-- an entity whose delete is in progress further up is not touched -/
+  keep : ∀ k, k ∈ busy → k ≠ id → s'.a.lookup k = s.a.lookup k
+
+def DelSpec (del : List Id → State → Id → Except Err State) : Prop :=
+  ∀ busy s id s', InvCore s → BossOK busy s → del busy s id = .ok s' → DelPost busy s s' id
+
+/-- a loop over referrers that are all in progress or gone does nothing -/
+theorem cascadeLoop_skip (del : State → Id → Except Err State) (busy : List Id) (l : List Id) (s : State)
+    (h : ∀ j, j ∈ l → j ∈ busy ∨ s.aEx j = false) : cascadeLoop del busy l s = .ok s := by
+  induction l with
+  | nil => rfl
+  | cons j rest ih =>
+    simp only [cascadeLoop]
+    have : (busy.contains j || !s.aEx j) = true := by
+      rcases h j (by simp) with hj | hj
+      · simp [hj]
+      · simp [hj]
+    simp only [this, if_true]
+    exact ih (fun k hk => h k (by simp [hk]))
+
+theorem cascadeLoop_spec {del : State → Id → Except Err State} {busy : List Id}
+    (hd : ∀ s j s', InvCore s → BossOK busy s → del s j = .ok s' → DelPost busy s s' j)
+    (l : List Id) {s s0 : State} (hi : InvCore s) (hb : BossOK busy s) (h : cascadeLoop del busy l s = .ok s0) :
+    InvCore s0 ∧ BossOK busy s0 ∧ s0.b = s.b ∧ s0.uLabel = s.uLabel ∧ s0.hasB = s.hasB ∧
+    (∀ k e, s0.a.lookup k = some e → s.a.lookup k = some e) ∧
+    (∀ j, j ∈ l → j ∈ busy ∨ s0.a.lookup j = none) ∧
+    (∀ k, k ∈ busy → s0.a.lookup k = s.a.lookup k) := by
+  induction l generalizing s with
+  | nil => simp only [cascadeLoop] at h; cases h; exact ⟨hi, hb, rfl, rfl, rfl, fun _ _ h => h, by simp, fun _ _ => rfl⟩
+  | cons j rest ih =>
+    simp only [cascadeLoop] at h
+    split at h
+    · next hskip =>
+      obtain ⟨c1, c2, c3, c4, c5, c6, c7, c8⟩ := ih hi hb h
+      refine ⟨c1, c2, c3, c4, c5, c6, ?_, c8⟩
+      intro k hk
+      simp only [List.mem_cons] at hk
+      rcases hk with rfl | hk
+      · simp only [Bool.or_eq_true, List.contains_eq_mem, decide_eq_true_eq, Bool.not_eq_true'] at hskip
+        rcases hskip with hm | hm
+        · exact Or.inl hm
+        · right
+          cases hl : s0.a.lookup k with
+          | none => rfl
+          | some e => have := c6 k e hl; simp [State.aEx, this] at hm
+      · exact c7 k hk
+    · next hskip =>
+      simp only [Bool.or_eq_true, List.contains_eq_mem, decide_eq_true_eq, Bool.not_eq_true', not_or] at hskip
+      cases hdj : del s j with
+      | error x => simp [hdj] at h
+      | ok s1 =>
+        simp only [hdj] at h
+        have p := hd s j s1 hi hb hdj
+        obtain ⟨c1, c2, c3, c4, c5, c6, c7, c8⟩ := ih p.core p.boss h
+        refine ⟨c1, c2, c3.trans p.b, c4.trans p.uLabel, c5.trans p.hasB, fun k e hk => p.sub k e (c6 k e hk), ?_, ?_⟩
+        · intro k hk
+          simp only [List.mem_cons] at hk
+          rcases hk with rfl | hk
+          · right
+            cases hl : s0.a.lookup k with
+            | none => rfl
+            | some e => have := c6 k e hl; rw [p.gone] at this; cases this
+          · exact c7 k hk
+        · intro k hk
+          rw [c8 k hk]
+          exact p.keep k hk (by rintro rfl; exact hskip.1 hk)
+
+/-- after the cascade every remaining referrer of the id is itself in progress -/
+theorem cascadeBoss_spec {del : List Id → State → Id → Except Err State} (hd : DelSpec del) {busy : List Id}
+    {s s0 : State} {id : Id} (hi : InvCore s) (hb : BossOK (markBusy busy id) s)
+    (h : cascadeBoss del busy s id = .ok s0) :
+    InvCore s0 ∧ BossOK (markBusy busy id) s0 ∧ s0.b = s.b ∧ s0.uLabel = s.uLabel ∧ s0.hasB = s.hasB ∧
+    (∀ k e, s0.a.lookup k = some e → s.a.lookup k = some e) ∧
+    (∀ j e, s0.a.lookup j = some e → e.boss.getD [] = id → j ∈ markBusy busy id) ∧
+    (∀ k, k ∈ markBusy busy id → s0.a.lookup k = s.a.lookup k) := by
+  unfold cascadeBoss at h
+  obtain ⟨c1, c2, c3, c4, c5, c6, c7, c8⟩ :=
+    cascadeLoop_spec (fun t j t' ht hbt hdel => hd _ t j t' ht hbt hdel) (minions s id) hi hb h
+  refine ⟨c1, c2, c3, c4, c5, c6, ?_, c8⟩
+  intro j e hj hbo
+  rcases c7 j ((mem_minions s id j).2 ⟨e, c6 j e hj, hbo⟩) with hm | hm
+  · exact hm
+  · rw [hj] at hm; cases hm
+
+theorem bossOK_mono {busy busy' : List Id} {s : State} (h : BossOK busy s) (hsub : ∀ k, k ∈ busy → k ∈ busy') :
+    BossOK busy' s := fun j e hj hne hnb => h j e hj hne (fun hm => hnb (hsub _ hm))
+
+/-- the strip steps keep the entity table -/
+theorem beforeDeleteA_a {s s' : State} {id : Id} (h : beforeDeleteA s id = .ok s') : s'.a = s.a := by
+  obtain ⟨sr, _, hfk⟩ := beforeDeleteA_ok h
+  unfold fkBeforeDelete at hfk
+  split at hfk
+  · obtain ⟨_, rfl⟩ := backrefDel_eq hfk; rfl
+  · cases hfk; rfl
+
+/-- `A.DeleteById` = the cascade over the referrers, then the delete proper (`deleteA0`): the cascade
+    loops of the later constraint rounds find every remaining referrer in progress -/
+theorem deleteA_decomp {fuel : Nat} (hd : DelSpec (deleteA fuel)) {busy : List Id} {s s' : State} {id : Id}
+    (hi : InvCore s) (hb : BossOK busy s) (h : deleteA (fuel + 1) busy s id = .ok s') :
+    ∃ s0, cascadeBoss (deleteA fuel) busy s id = .ok s0 ∧ deleteA0 s0 id = .ok s' := by
+  have hb' : BossOK (markBusy busy id) s := bossOK_mono hb (fun k hk => (mem_markBusy busy id k).2 (Or.inr hk))
+  unfold deleteA at h
+  split at h
+  · cases h
+  · next hid =>
+    split at h
+    · cases h
+    · next e hold =>
+      simp only [bind, Except.bind, pure, Except.pure] at h
+      cases hc : e.code with
+      | none =>
+        simp only [hc, Option.isSome_none, Bool.false_eq_true, if_false] at h
+        cases hcb : cascadeBoss (deleteA fuel) busy s id with
+        | error x => simp [hcb] at h
+        | ok s0 =>
+          simp only [hcb] at h
+          obtain ⟨_, _, _, _, _, _, _, c8⟩ := cascadeBoss_spec hd hi hb' hcb
+          have hold0 : s0.a.lookup id = some e := by
+            rw [c8 id ((mem_markBusy busy id id).2 (Or.inl rfl))]; exact hold
+          refine ⟨s0, rfl, ?_⟩
+          unfold deleteA0
+          simp only [hid, if_false, hold0, hc, Option.isSome_none, Bool.false_eq_true, bind, Except.bind, pure, Except.pure]
+          exact h
+      | some c =>
+        simp only [hc, Option.isSome_some, if_true] at h
+        cases hcb : cascadeBoss (deleteA fuel) busy s id with
+        | error x => simp [hcb] at h
+        | ok s0 =>
+          simp only [hcb] at h
+          obtain ⟨_, _, _, _, _, _, c7, c8⟩ := cascadeBoss_spec hd hi hb' hcb
+          have hold0 : s0.a.lookup id = some e := by
+            rw [c8 id ((mem_markBusy busy id id).2 (Or.inl rfl))]; exact hold
+          cases hbd : beforeDeleteA s0 id with
+          | error x => simp [hbd] at h
+          | ok t =>
+            simp only [hbd] at h
+            have hta : t.a = s0.a := beforeDeleteA_a hbd
+            -- the second cascade is the identity
+            have hskip : cascadeBoss (deleteA fuel) busy
+                ({ t with uCode := uniqueBeforeDelete (evCode (some e)) t.uCode, p := t.p.cleanFwd t.bEx id } : State) id =
+                .ok { t with uCode := uniqueBeforeDelete (evCode (some e)) t.uCode, p := t.p.cleanFwd t.bEx id } := by
+              unfold cascadeBoss
+              apply cascadeLoop_skip
+              intro j hj
+              rw [minions_congr (s := s0) (by exact hta)] at hj
+              obtain ⟨ej, hje, hjb⟩ := (mem_minions s0 id j).1 hj
+              exact Or.inl (c7 j ej hje hjb)
+            rw [hskip] at h
+            refine ⟨s0, rfl, ?_⟩
+            unfold deleteA0
+            simp only [hid, if_false, hold0, hc, Option.isSome_some, if_true, bind, Except.bind, pure, Except.pure, hbd]
+            exact h
+
+theorem deleteA_spec (fuel : Nat) : DelSpec (deleteA fuel) := by
+  induction fuel with
+  | zero => intro busy s id s' _ _ h; simp [deleteA] at h
+  | succ fuel ih =>
+    intro busy s id s' hi hb h
+    have hb' : BossOK (markBusy busy id) s := bossOK_mono hb (fun k hk => (mem_markBusy busy id k).2 (Or.inr hk))
+    obtain ⟨s0, hcb, h0⟩ := deleteA_decomp ih hi hb h
+    obtain ⟨c1, c2, c3, c4, c5, c6, c7, c8⟩ := cascadeBoss_spec ih hi hb' hcb
+    obtain ⟨d1, d2, d3, d4, d5, _⟩ := core_deleteA0 c1 h0
+    refine ⟨d1, ?_, d3.trans c3, d4.trans c4, d5.trans c5, ?_, by rw [d2]; simp, ?_⟩
+    · intro j e hj hne hnb
+      rw [d2] at hj
+      simp only [Map.lookup_erase] at hj
+      split at hj
+      · cases hj
+      · next hji =>
+        have hnb' : j ∉ markBusy busy id := by
+          rw [mem_markBusy]; rintro (h1 | h1)
+          · exact hji h1
+          · exact hnb h1
+        have hex := c2 j e hj hne hnb'
+        have hne' : e.boss.getD [] ≠ id := fun heq => hnb' (c7 j e hj heq)
+        simp only [State.aEx, d2, Map.lookup_erase, hne', if_false]
+        exact hex
+    · intro k e hk
+      rw [d2] at hk
+      simp only [Map.lookup_erase] at hk
+      split at hk
+      · cases hk
+      · exact c6 k e hk
+    · intro k hk hne
+      rw [d2]
+      simp only [Map.lookup_erase, hne, if_false]
+      exact c8 k ((mem_markBusy busy id k).2 (Or.inr hk))
+
+/-- a delete issued by the caller -/
+theorem deleteATop_spec {s s' : State} {id : Id} (hi : InvCore s) (hb : BossOK [] s) (h : deleteATop s id = .ok s') :
+    DelPost [] s s' id := deleteA_spec _ [] s id s' hi hb h
+
+theorem deleteATop_id_ne {s s' : State} {id : Id} (h : deleteATop s id = .ok s') : id ≠ [] := by
+  unfold deleteATop deleteA at h
+  split at h
+  · cases h
+  · next hid => exact hid
+
 /-! ### deleting an owner (with its cascade) -/
 
 theorem core_congr_uLabel {s : State} (h : InvCore s) (x : Map Bytes Id) : InvCore { s with uLabel := x } :=
   ⟨h.uName, h.uAlias, h.uCode, h.sRoles, h.nek, h.br, h.thgDom, h.ownerExists, h.depExists, h.g, h.p, h.rc,
     h.namesNonEmpty, h.rolesNonEmpty, h.codeNonEmpty, h.idA, h.idB, h.hasA, h.hasB⟩
 
-theorem deleteAll_spec {ks : List Id} {s s' : State} (hi : InvCore s) (h : deleteAll ks s = .ok s') :
-    InvCore s' ∧ s'.b = s.b ∧ s'.uLabel = s.uLabel ∧ s'.hasB = s.hasB ∧
+theorem deleteAll_spec {ks : List Id} {s s' : State} (hi : InvCore s) (hbo : BossOK [] s) (h : deleteAll ks s = .ok s') :
+    InvCore s' ∧ BossOK [] s' ∧ s'.b = s.b ∧ s'.uLabel = s.uLabel ∧ s'.hasB = s.hasB ∧
     (∀ j e, s'.a.lookup j = some e → s.a.lookup j = some e) ∧ (∀ j, j ∈ ks → s'.a.lookup j = none) := by
   induction ks generalizing s with
-  | nil => simp only [deleteAll] at h; cases h; exact ⟨hi, rfl, rfl, rfl, fun _ _ h => h, by simp⟩
+  | nil => simp only [deleteAll] at h; cases h; exact ⟨hi, hbo, rfl, rfl, rfl, fun _ _ h => h, by simp⟩
   | cons k rest ih =>
     simp only [deleteAll] at h
-    cases hk : deleteA s k with
+    cases hk : deleteATop s k with
     | error e => simp [hk] at h
     | ok s1 =>
       simp only [hk] at h
-      obtain ⟨c1, c2, c3, c4, c5, _⟩ := core_deleteA hi hk
-      obtain ⟨d1, d2, d3, d4, d5, d6⟩ := ih c1 h
-      have hsub : ∀ j e, s'.a.lookup j = some e → s.a.lookup j = some e := by
-        intro j e hj
-        have := d5 j e hj
-        rw [c2] at this
-        simp only [Map.lookup_erase] at this
-        split at this
-        · cases this
-        · exact this
-      refine ⟨d1, d2.trans c3, d3.trans c4, d4.trans c5, hsub, ?_⟩
+      have p := deleteATop_spec hi hbo hk
+      obtain ⟨d1, d0, d2, d3, d4, d5, d6⟩ := ih p.core p.boss h
+      refine ⟨d1, d0, d2.trans p.b, d3.trans p.uLabel, d4.trans p.hasB, fun j e hj => p.sub j e (d5 j e hj), ?_⟩
       intro j hj
       simp only [List.mem_cons] at hj
       rcases hj with rfl | hj
@@ -1015,7 +1299,7 @@ theorem deleteAll_spec {ks : List Id} {s s' : State} (hi : InvCore s) (h : delet
         | none => rfl
         | some e =>
           have := d5 j e hl
-          rw [c2] at this; simp at this
+          rw [p.gone] at this; cases this
       · exact d6 j hj
 
 theorem mem_dependants (s : State) (id j : Id) :
@@ -1056,7 +1340,8 @@ theorem bEx_erase {s s' : State} {id : Id} (hb : s'.b = s.b.erase id) :
 
 theorem inv_deleteB {s s' : State} {id : Id} (hi : Inv s) (h : deleteB s id = .ok s') : Inv s' := by
   obtain ⟨hid, e, s1, hold, hempty, hcas, rfl⟩ := deleteB_ok h
-  obtain ⟨c, cb, cl, chb, csub, cgone⟩ := deleteAll_spec (core_congr_uLabel hi.toInvCore _) hcas
+  obtain ⟨c, cbo, cb, cl, chb, csub, cgone⟩ := deleteAll_spec (core_congr_uLabel hi.toInvCore _)
+    (bossOK_congr (s' := { s with uLabel := uniqueBeforeDelete (e.label.getD []) s.uLabel }) hi.boss rfl) hcas
   simp only at cb cl chb csub
   -- no survivor refers to the owner any more
   have hnoref : ∀ j e', s1.a.lookup j = some e' → e'.owner.getD [] ≠ id := by
@@ -1070,7 +1355,7 @@ theorem inv_deleteB {s s' : State} {id : Id} (hi : Inv s) (h : deleteB s id = .o
     rw [hj] at this; cases this
   have hbmono := bEx_erase (s := s1) (s' := { s1 with b := s1.b.erase id }) (id := id) rfl
   refine ⟨⟨c.uName, c.uAlias, c.uCode, c.sRoles, c.nek, ?_, ?_, ?_, ?_, ?_, ?_, ?_, c.namesNonEmpty, c.rolesNonEmpty,
-    c.codeNonEmpty, c.idA, ?_, c.hasA, ?_⟩, ?_⟩
+    c.codeNonEmpty, c.idA, ?_, c.hasA, ?_⟩, ?_, ?_⟩
   · intro b j
     have := c.br b j
     show j ∈ ((s1.thg.erase id).lookup b).getD [] ↔ _
@@ -1099,10 +1384,11 @@ theorem inv_deleteB {s s' : State} {id : Id} (hi : Inv s) (h : deleteB s id = .o
   · show UI _ (s1.b.erase id) s1.uLabel
     rw [cb, cl]
     exact C03.uniqueBeforeDelete_ok (f := fun (e : EntB) => e.label.getD []) hi.uLabel hold
+  · exact bossOK_congr cbo rfl
 
-theorem inv_deleteA {s s' : State} {id : Id} (hi : Inv s) (h : deleteA s id = .ok s') : Inv s' := by
-  obtain ⟨c1, _, c3, c4, _, _⟩ := core_deleteA hi.toInvCore h
-  exact ⟨c1, by rw [c3, c4]; exact hi.uLabel⟩
+theorem inv_deleteA {s s' : State} {id : Id} (hi : Inv s) (h : deleteATop s id = .ok s') : Inv s' := by
+  have p := deleteATop_spec hi.toInvCore hi.boss h
+  exact ⟨p.core, by rw [p.b, p.uLabel]; exact hi.uLabel, p.boss⟩
 
 /-! ### all operations, transactions, histories -/
 
